@@ -10,6 +10,13 @@
 //        once per request number j with a failure (<kind>) injected at the j-th request; prints for
 //        each run which step of Run the failing request belongs to, whether Run returned an error
 //        and the pull/trash requests that arrived after the failure.
+//        <kind> = gate: interleaving exploration of GetCurrentState. The check builds keep-balance with an
+//        add-only instrumented copy of the current balance.go (verifC06Point before every statement of the
+//        goroutines GetCurrentState starts). For one mount's index request, for the collection processor
+//        and the collection scanner ("other"), for a sample of hold positions j and for every pause
+//        position p: "other" is held at its j-th statement, then the index request fails, the failing
+//        worker runs up to its p-th statement after the failure and pauses there while "other" is
+//        released and runs on (6 statements or to its end), then the worker continues.
 package main
 
 import (
@@ -25,6 +32,7 @@ import (
 	"net/http/httptest"
 	"os"
 	"path/filepath"
+	"runtime"
 	"sort"
 	"strconv"
 	"strings"
@@ -460,6 +468,116 @@ func verifC06Page(f []string) string {
 	return strings.Join(api.trace, "|") + "=" + out
 }
 
+// ---------------------------------------------------------------------------- schedule controller
+
+// verifC06Ctl is consulted by the hook the instrumenter inserted into GetCurrentState's goroutines.
+var verifC06Ctl *verifC06Sched
+
+func verifC06Point(label string) {
+	if c := verifC06Ctl; c != nil {
+		c.point(label)
+	}
+}
+
+func verifC06Goid() int64 {
+	var buf [64]byte
+	n := runtime.Stack(buf[:], false)
+	s := strings.TrimPrefix(string(buf[:n]), "goroutine ")
+	if i := strings.IndexByte(s, ' '); i > 0 {
+		id, _ := strconv.ParseInt(s[:i], 10, 64)
+		return id
+	}
+	return -1
+}
+
+type verifC06Sched struct {
+	mtx sync.Mutex
+	// parameters (0 = count only)
+	other   int // goroutine literal held before the failure: 1 = collection processor, 2 = collection scanner
+	holdAt  int // "other" is held at its holdAt-th statement until the failing worker reaches its pause
+	pauseAt int // the failing worker pauses at its pauseAt-th statement after the failure ...
+	advance int // ... until "other" has executed this many further statements, or has ended
+	// state
+	counts        map[int]int // statements executed per goroutine literal
+	victim        int64       // goroutine id of the worker whose request failed (0: not yet)
+	victimPts     int
+	otherHeld     bool
+	otherReleased bool
+	otherExit     bool
+	seenPoints    bool
+}
+
+func (c *verifC06Sched) waitFor(cond func() bool, d time.Duration) {
+	deadline := time.Now().Add(d)
+	for {
+		c.mtx.Lock()
+		ok := cond()
+		c.mtx.Unlock()
+		if ok || time.Now().After(deadline) {
+			return
+		}
+		time.Sleep(200 * time.Microsecond)
+	}
+}
+
+func (c *verifC06Sched) point(label string) {
+	if len(label) < 4 || label[0] != 'g' {
+		return
+	}
+	dot := strings.IndexByte(label, '.')
+	g, err := strconv.Atoi(label[1:dot])
+	if err != nil {
+		return
+	}
+	exit := label[dot+1:] == "exit"
+	id := verifC06Goid()
+	c.mtx.Lock()
+	c.seenPoints = true
+	if !exit {
+		c.counts[g]++
+	}
+	if c.victim != 0 && id == c.victim {
+		if exit {
+			c.otherReleased = true
+			c.mtx.Unlock()
+			return
+		}
+		c.victimPts++
+		if c.pauseAt > 0 && c.victimPts == c.pauseAt {
+			c.otherReleased = true
+			base := c.counts[c.other]
+			c.mtx.Unlock()
+			c.waitFor(func() bool { return c.otherExit || c.counts[c.other] >= base+c.advance }, 500*time.Millisecond)
+			return
+		}
+		c.mtx.Unlock()
+		return
+	}
+	if c.holdAt > 0 && g == c.other {
+		if exit {
+			c.otherExit = true
+			c.mtx.Unlock()
+			return
+		}
+		if c.counts[g] == c.holdAt && !c.otherReleased {
+			c.otherHeld = true
+			c.mtx.Unlock()
+			c.waitFor(func() bool { return c.otherReleased }, 3*time.Second)
+			return
+		}
+	}
+	c.mtx.Unlock()
+}
+
+// gate parks the failing request until "other" is held (or has ended), then marks the calling
+// goroutine as the failing worker.
+func (c *verifC06Sched) gate() {
+	c.waitFor(func() bool { return c.otherHeld || c.otherExit }, 3*time.Second)
+	c.mtx.Lock()
+	c.victim = verifC06Goid()
+	c.mtx.Unlock()
+}
+
 // ---------------------------------------------------------------------------- (c) sweep abort
 
 type verifC06World struct {
@@ -472,6 +590,8 @@ type verifC06World struct {
 	ddSeen   bool
 	failed   bool   // the injected failure has happened
 	failStep string // step of Run the failing request belongs to
+	gateHost string // gate mode: the index request of this host fails, under control of sched
+	sched    *verifC06Sched
 	// commit requests seen after the failure (or, without a failure, after GetCurrentState began)
 	pullsAfter, trashAfter, nonemptyAfter int
 	pulls, trash, nonempty                int
@@ -509,6 +629,17 @@ func (w *verifC06World) RoundTrip(req *http.Request) (*http.Response, error) {
 		body, _ = ioutil.ReadAll(req.Body)
 		req.Body.Close()
 		req.Body = ioutil.NopCloser(bytes.NewReader(body))
+	}
+	if w.gateHost != "" && req.URL.Host == w.gateHost && strings.HasPrefix(req.URL.Path, "/mounts/") {
+		w.mtx.Lock()
+		w.nreq++
+		w.mtx.Unlock()
+		w.sched.gate()
+		w.mtx.Lock()
+		w.failed = true
+		w.failStep = "bal.GetCurrentState"
+		w.mtx.Unlock()
+		return nil, errors.New("verif: injected transport error (gated)")
 	}
 	w.mtx.Lock()
 	defer w.mtx.Unlock()
@@ -697,7 +828,13 @@ type verifC06RunOut struct {
 }
 
 func verifC06RunOnce(flags string, nsvc, ncoll, pageSize, failAt int, kind, tmp string) verifC06RunOut {
-	w := &verifC06World{nsvc: nsvc, ncoll: ncoll, failAt: failAt, failKind: kind}
+	return verifC06RunWorld(flags, nsvc, ncoll, pageSize, failAt, kind, tmp, "", nil)
+}
+
+func verifC06RunWorld(flags string, nsvc, ncoll, pageSize, failAt int, kind, tmp, gateHost string, sched *verifC06Sched) verifC06RunOut {
+	w := &verifC06World{nsvc: nsvc, ncoll: ncoll, failAt: failAt, failKind: kind, gateHost: gateHost, sched: sched}
+	verifC06Ctl = sched
+	defer func() { verifC06Ctl = nil }()
 	logger := logrus.New()
 	logger.Out = ioutil.Discard
 	client := &arvados.Client{APIHost: "zzzzz.arvadosapi.com", AuthToken: "xyzzy", Client: &http.Client{Transport: w}}
@@ -769,6 +906,34 @@ func verifC06Run(f []string, tmp string) string {
 			return fmt.Sprintf("%s:%d:%d:%d:%d", step, e, w.pulls, w.trashAfterDD, w.nonempty)
 		}
 		return fmt.Sprintf("%s:%d:%d:%d:%d", step, e, w.pulls, w.trash, w.nonempty)
+	}
+	if f[5] == "gate" {
+		// count the statements each goroutine of GetCurrentState executes in a clean sweep
+		probe := &verifC06Sched{counts: map[int]int{}}
+		base := verifC06RunWorld(f[1], nsvc, ncoll, pageSize, -1, "net", tmp, "", probe)
+		out := []string{token(base)}
+		if !probe.seenPoints {
+			return "not-instrumented"
+		}
+		host := base.w.host(nsvc - 1)
+		for other := 1; other <= 2; other++ {
+			total := probe.counts[other]
+			holds := map[int]bool{}
+			var order []int
+			for _, j := range []int{3, 4, 6, 7, total / 2, total - 1} {
+				if j >= 1 && j <= total && !holds[j] {
+					holds[j] = true
+					order = append(order, j)
+				}
+			}
+			for _, j := range order {
+				for p := 1; p <= 4; p++ {
+					sc := &verifC06Sched{counts: map[int]int{}, other: other, holdAt: j, pauseAt: p, advance: 6}
+					out = append(out, token(verifC06RunWorld(f[1], nsvc, ncoll, pageSize, -1, "net", tmp, host, sc)))
+				}
+			}
+		}
+		return strings.Join(out, ",")
 	}
 	base := verifC06RunOnce(f[1], nsvc, ncoll, pageSize, -1, f[5], tmp)
 	out := []string{token(base)}
